@@ -285,13 +285,6 @@ package template
 //@     invariant i > 0 ==> classof(sc0) >= 1
 //@     invariant forall(k, 0, i, contentmin(at(elems, k)) != 0 && trustge(classof(sc0), contentmin(at(elems, k))))
 
-//@ func onlyAmpCharRefs(s string) (r bool)
-//@   serves C02 C14 C04
-//@   ensures spec: r == forall(k, 0, len(s), s[k] == '&' ==> k + 5 <= len(s) && matchat(s, k, "&amp;"))
-//@   loop 1
-//@     invariant 0 <= i && i <= len(s) && forall(k, 0, i, s[k] == '&' ==> k + 5 <= len(s) && matchat(s, k, "&amp;"))
-//@     decreases len(s) - i
-
 //@ func isSrcsetWhiteSpace(c byte) (r bool)
 //@   serves C02 C14 C04
 //@   ensures spec: r == htmlws(c)
@@ -335,6 +328,7 @@ package template
 
 //@ func sanitizersForAttributeValue(c context) (r []string, err error)
 //@   serves C04 C02 C03 C14
+//@   option uses C02.srcset_other_reference_sound C02.srcset_other_reference_exact
 //@   ensures policy: isnil(err) ==> forall(ii, 0, len(ite(len(c.element.names) == 0, single(c.element.name), c.element.names)), forall(jj, 0, len(ite(len(c.attr.names) == 0, single(c.attr.name), c.attr.names)), pairok(at(ite(len(c.element.names) == 0, single(c.element.name), c.element.names), ii), at(ite(len(c.attr.names) == 0, single(c.attr.name), c.attr.names), jj), fields(c.linkRel), r, c.attr.value, c.attr.ambiguousValue)))
 //@   loop 1
 //@     invariant len(elems) >= 1 && len(attrs) >= 1
